@@ -3,6 +3,7 @@
    (regenerated from the checked tree and the installed PyTorch on every run). *)
 From Coq Require Import String List Bool.
 Require Import OV.Registry.Binding OV.Registry.BindingProofs OV.Gen.TorchRegistry OV.Registry.BindingRegistry.
+Require Import OV.Registry.BindingSnapshots OV.Registry.BindingSnapshotsProofs.
 Import ListNotations.
 Open Scope string_scope.
 
@@ -94,3 +95,55 @@ Theorem C16_rand_like_refuted : exists c, conforms rand_like_schema c /\
   exists b, bind_signature (f_params rand_like_sig) c = OK b /\ b_dropped_kw b = ["memory_format"].
 Proof. exact rand_like_refuted. Qed.
 Print Assumptions C16_rand_like_refuted.
+
+(* ---- repairs: every defective signature family in its two pinned variants (Registry/BindingSnapshots.v) ---- *)
+
+(* a conforming call on which the boolean reading of the property's clauses fails refutes the property for
+   that call (so the harness's call_goodb verdicts on witness calls are verdicts about binding_good) *)
+Theorem C16_call_goodb_false_refutes : forall s f c, call_goodb s f c = false ->
+  ~ exists b, bind f c = OK b /\ binding_good s f c b.
+Proof. exact call_goodb_false_refutes. Qed.
+Print Assumptions C16_call_goodb_false_refutes.
+
+(* for each family (amax/amin, generator keyword of the random ops, tensor.* constructors, stft, device_put,
+   prims::var, repeat_interleave.Tensor, complex mean, quantized per-tensor .tensor/.tensor2): the signature as
+   first read is refuted by a concrete conforming call, the repaired signature binds every conforming call well.
+   Which of the two the checked tree is in is decided by the harness (variant_of on the regenerated registry);
+   the registry theorem above then demands binds_ok of it unless a status-known finding names the entry. *)
+Theorem C16_repairs_sound : forall fam, In fam families ->
+  refuted (fam_schema fam) (fam_as_read fam) /\ binds_all (fam_schema fam) (fam_repaired fam).
+Proof. exact repairs_sound. Qed.
+Print Assumptions C16_repairs_sound.
+
+(* a refuted signature never passes binds_ok: the old behaviour coming back cannot slip through the registry theorem *)
+Theorem C16_refuted_not_binds_ok : forall s f, refuted s f -> binds_ok s f = false.
+Proof. exact refuted_not_binds_ok. Qed.
+Print Assumptions C16_refuted_not_binds_ok.
+
+(* hypotheses of C16_repairs_sound are satisfiable: the list of families is not empty *)
+Example C16_repairs_sound_inhabited : In (mkFam "aten::amin" false amin_schema amin_sig_as_read amin_sig_repaired) families.
+Proof. left; reflexivity. Qed.
+
+(* the as-read witnesses spelled out, one per failure mode *)
+Theorem C16_tensor_ctor_refuted : exists c, conforms tensor_bool_schema c /\ bind tensor_bool_sig_as_read c = Err (MissingRequired "dtype").
+Proof. exact tensor_bool_refuted. Qed.
+Print Assumptions C16_tensor_ctor_refuted.
+
+Theorem C16_generator_kwarg_refuted : exists c, conforms bernoulli_schema c /\ bind bernoulli_sig_as_read c = Err (UnexpectedKeyword "generator").
+Proof. exact bernoulli_refuted. Qed.
+Print Assumptions C16_generator_kwarg_refuted.
+
+Theorem C16_stft_refuted : exists c, conforms stft_schema c /\ bind stft_sig_as_read c = Err TooManyPositional.
+Proof. exact stft_refuted. Qed.
+Print Assumptions C16_stft_refuted.
+
+Theorem C16_device_put_refuted : exists c b, conforms device_put_schema c /\ bind device_put_sig_as_read c = OK b /\
+  b_dropped_pos b = [2] /\ (exists a, nth_error (pos_args device_put_schema) 2 = Some a /\ droppable (a_name a) = false).
+Proof. exact device_put_refuted. Qed.
+Print Assumptions C16_device_put_refuted.
+
+Theorem C16_quantize_per_tensor_tensor_refuted : exists c b p a, conforms quantize_per_tensor_tensor2_schema c /\
+  bind quantize_per_tensor_tensor2_sig_as_read c = OK b /\ In (p, SPos 1) (b_bound b) /\
+  arg_of quantize_per_tensor_tensor2_schema (SPos 1) = Some a /\ is_tensor a = true /\ p_kind p = PAttr AFloat.
+Proof. exact quantize_per_tensor_tensor2_refuted. Qed.
+Print Assumptions C16_quantize_per_tensor_tensor_refuted.
